@@ -15,9 +15,10 @@ from .builder import Fault
 
 
 class Party(object):
-    def __init__(self, cname, obj):
+    def __init__(self, cname, obj, env=None):
         self.cname = cname
         self.obj = obj
+        self.env = env
         self.rand_off = set()        # path keys with rand_mode off
         self.modes = {}              # {obj path key: {block: bool}}
         self.rangelists = {}         # name -> items (reference copy)
@@ -57,12 +58,13 @@ class World(object):
     # -------------------------------------------------------------- helpers
     def tree(self, p):
         pt = self.parties[p]
-        return builder.read_tree(self.env, pt.cname, pt.obj)
+        return builder.read_tree(pt.env, pt.cname, pt.obj)
 
-    def new(self, cname):
-        obj = self.env.classes[cname]()
-        pt = Party(cname, obj)
-        for c in self.prog.mro(cname):
+    def new(self, cname, env=None):
+        env = env or self.env
+        obj = env.classes[cname]()
+        pt = Party(cname, obj, env)
+        for c in env.prog.mro(cname):
             for rl in c.get("rls", []):
                 pt.rangelists[rl["n"]] = [list(x) if isinstance(x, (list, tuple)) else x
                                           for x in rl["items"]]
@@ -72,7 +74,7 @@ class World(object):
     def rand_paths(self, p, tree=None):
         pt = self.parties[p]
         tree = tree if tree is not None else self.tree(p)
-        return refsem.rand_scalar_paths(self.prog, pt.cname, tree, pt.rand_off)
+        return refsem.rand_scalar_paths(pt.env.prog, pt.cname, tree, pt.rand_off)
 
     # ------------------------------------------------------------------ ops
     def apply(self, op):
@@ -104,16 +106,22 @@ class World(object):
     def op_new(self, op):
         return {"p": self.new(op["cls"])}
 
+    def op_newprog(self, op):
+        """late construction: build the classes of another program now and
+        create a party of its top class"""
+        env = builder.Env(op["prog"], world=self, tag=self.env.tag + "_L%d" % len(self.parties))
+        return {"p": self.new(op["prog"]["top"], env)}
+
     def op_seed(self, op):
         self.parties[op["p"]].obj.set_randstate(RandState.mkFromSeed(op["k"]))
 
     def op_assign(self, op):
         pt = self.parties[op["p"]]
-        builder.assign_path(self.env, pt.cname, pt.obj, op["path"], op["v"])
+        builder.assign_path(pt.env, pt.cname, pt.obj, op["path"], op["v"])
 
     def op_rand_mode(self, op):
         pt = self.parties[op["p"]]
-        parent = builder.get_path(self.env, pt.obj, op["path"][:-1])
+        parent = builder.get_path(pt.env, pt.obj, op["path"][:-1])
         with vsc.raw_mode():
             getattr(parent, op["path"][-1]).rand_mode = bool(op["on"])
         key = refsem.path_key(op["path"])
@@ -124,7 +132,7 @@ class World(object):
 
     def op_cmode(self, op):
         pt = self.parties[op["p"]]
-        tgt = builder.get_path(self.env, pt.obj, op.get("path", []))
+        tgt = builder.get_path(pt.env, pt.obj, op.get("path", []))
         getattr(tgt, op["block"]).constraint_mode(bool(op["on"]))
         pt.modes.setdefault(refsem.path_key(op.get("path", [])), {})[op["block"]] = bool(op["on"])
 
@@ -161,7 +169,7 @@ class World(object):
             kw["solve_fail_debug"] = op["sfd"]
         with pt.obj.randomize_with(**kw) as it:
             self.site("with_enter")
-            self.env.stmts(op["inline"], it, [])
+            pt.env.stmts(op["inline"], it, [])
             self.site("with_exit")
 
     def _targets(self, op):
@@ -170,7 +178,7 @@ class World(object):
             pt = self.parties[p]
             if path:
                 with vsc.raw_mode():
-                    out.append(builder.get_path(self.env, pt.obj, path))
+                    out.append(builder.get_path(pt.env, pt.obj, path))
             else:
                 out.append(pt.obj)
         return out
@@ -191,33 +199,33 @@ class World(object):
         ctx = self.parties[op["ctx"]].obj if op.get("ctx") is not None else None
         with vsc.randomize_with(*tg, **kw):
             self.site("with_enter")
-            self.env.stmts(op["inline"], ctx, [])
+            self.parties[op["ctx"]].env.stmts(op["inline"], ctx, [])
             self.site("with_exit")
 
     # -- list edits
     def op_lappend(self, op):
         pt = self.parties[op["p"]]
-        builder.get_path(self.env, pt.obj, op["path"]).append(self._lv(pt, op["path"], op["v"]))
+        builder.get_path(pt.env, pt.obj, op["path"]).append(self._lv(pt, op["path"], op["v"]))
 
     def op_lextend(self, op):
         pt = self.parties[op["p"]]
-        builder.get_path(self.env, pt.obj, op["path"]).extend(
+        builder.get_path(pt.env, pt.obj, op["path"]).extend(
             [self._lv(pt, op["path"], v) for v in op["v"]])
 
     def op_lclear(self, op):
         pt = self.parties[op["p"]]
-        builder.get_path(self.env, pt.obj, op["path"]).clear()
+        builder.get_path(pt.env, pt.obj, op["path"]).clear()
 
     def op_lassign(self, op):
         pt = self.parties[op["p"]]
-        parent = builder.get_path(self.env, pt.obj, op["path"][:-1])
+        parent = builder.get_path(pt.env, pt.obj, op["path"][:-1])
         setattr(parent, op["path"][-1], [self._lv(pt, op["path"], v) for v in op["v"]])
 
     def _lv(self, pt, path, v):
-        cx = refsem.Cx(self.prog, pt.cname, None)
+        cx = refsem.Cx(pt.env.prog, pt.cname, None)
         f = cx.ftype(path)
         if f["k"] == "le":
-            return self.env.enums[f["en"]](v)
+            return pt.env.enums[f["en"]](v)
         return v
 
     # -- random state
@@ -258,9 +266,9 @@ class World(object):
         before = self.tree(p)
         stmts = []
         for (path, v) in point:
-            f = refsem.Cx(self.prog, pt.cname, None).ftype(path)
+            f = refsem.Cx(pt.env.prog, pt.cname, None).ftype(path)
             if f["k"] in ("e", "le"):
-                rhs = {"t": "en", "en": f["en"], "item": self.prog.enum_item(f["en"], v)}
+                rhs = {"t": "en", "en": f["en"], "item": pt.env.prog.enum_item(f["en"], v)}
             else:
                 rhs = {"t": "lit", "v": v}
             stmts.append({"t": "expr", "e": {"t": "bin", "op": "==",
@@ -270,7 +278,7 @@ class World(object):
         self.log.add("probe", p=p)
         try:
             with pt.obj.randomize_with() as it:
-                self.env.stmts(stmts, it, [])
+                pt.env.stmts(stmts, it, [])
             ok = True
         except SolveFailure:
             ok = False
@@ -279,12 +287,80 @@ class World(object):
         # put the values back (only random fields can have changed)
         after = self.tree(p)
         if after != before:
-            for path in refsem.all_scalar_paths(self.prog, pt.cname, before):
+            for path in refsem.all_scalar_paths(pt.env.prog, pt.cname, before):
                 a = refsem._walk(before, path)
                 try:
                     b = refsem._walk(after, path)
                 except (IndexError, KeyError):
                     b = None
                 if a != b:
-                    builder.assign_path(self.env, pt.cname, pt.obj, path, a)
+                    builder.assign_path(pt.env, pt.cname, pt.obj, path, a)
         return ok
+
+
+# ----------------------------------------------------------------------
+# internal-state inspection (C16: observe_at = module state + object model)
+# ----------------------------------------------------------------------
+def global_state():
+    """lengths of the library's shared construction stacks"""
+    import vsc.impl.ctor as ctor
+    import vsc.impl.expr_mode as em
+    return {"expr_l": len(ctor.expr_l),
+            "constraint_scope_stack": len(ctor.constraint_scope_stack),
+            "srcinfo_mode_s": len(ctor.srcinfo_mode_s),
+            "foreach_arr_s": len(ctor.foreach_arr_s),
+            "_expr_mode": len(em._expr_mode),
+            "_raw_mode": len(em._raw_mode)}
+
+
+def model_residue(obj):
+    """leftover temporary constraints / solver handles in an object's model"""
+    from vsc.model.field_composite_model import FieldCompositeModel
+    from vsc.model.constraint_override_model import ConstraintOverrideModel
+    from vsc.model.constraint_scope_model import ConstraintScopeModel
+    from vsc.model.constraint_if_else_model import ConstraintIfElseModel
+    out = []
+    seen = set()
+
+    def walk_c(c, where):
+        if c is None or id(c) in seen:
+            return
+        seen.add(id(c))
+        if isinstance(c, ConstraintOverrideModel):
+            out.append("override@" + where)
+            return
+        if getattr(c, "node", None) is not None:
+            out.append("node@" + where)
+        if isinstance(c, ConstraintScopeModel):
+            for cc in c.constraint_l:
+                walk_c(cc, where)
+        if isinstance(c, ConstraintIfElseModel):
+            walk_c(c.true_c, where)
+            walk_c(c.false_c, where)
+
+    def walk_f(m, pfx):
+        if id(m) in seen:
+            return
+        seen.add(id(m))
+        name = pfx + str(m.name)
+        if isinstance(m, FieldCompositeModel):
+            if hasattr(m, "size") and getattr(m.size, "var", None) is not None:
+                out.append("var@" + name + ".size")
+            for attr in ("sum_expr_btor", "product_expr_btor"):
+                if getattr(m, attr, None) is not None:
+                    out.append(attr + "@" + name)
+            for f in m.field_l:
+                walk_f(f, name + ".")
+            for c in m.constraint_model_l:
+                walk_c(c, name + "." + str(getattr(c, "name", "?")))
+            for c in m.constraint_dynamic_model_l:
+                walk_c(c, name + "." + str(getattr(c, "name", "?")))
+        else:
+            if getattr(m, "var", None) is not None:
+                out.append("var@" + name)
+    try:
+        model = obj.get_model()
+    except Exception as e:
+        return ["get_model raised " + type(e).__name__]
+    walk_f(model, "")
+    return out
